@@ -6,12 +6,18 @@ import dscommon
 ID = "C17"
 ANCHORS = ["corankco/dataset.py", "corankco/ranking.py", "corankco/element.py"]
 RULE = ("pairs of datasets: identical, rankings permuted, bucket members inserted in another order (incl. members that "
-        "collide in CPython's hash table: 0, 8, 16, ...), different names, duplicated rankings with other multiplicities, one "
+        "collide in CPython's hash table: 0, 8, 16, ...; DIFFERENT ints with EQUAL hashes: -1 / -2, k / k + 2^61 - 1), one element "
+        "replaced by its equal-hash twin, different names, duplicated rankings with other multiplicities, one "
         "element moved to another bucket, buckets swapped, one ranking dropped, string names containing spaces; compared: "
         "==, reflexivity, symmetry, agreement with ranking equality; non-trivial = pair differing only by insertion order, by "
         "ranking order or by one multiplicity / one move; distinct by JSON")
 TRUSTED = common.TRUSTED_BASE + ["hand translation of Dataset.__eq__ as repaired (multiset of tuples of frozensets)"]
 ASSUMPTIONS = ["element names: ints and ASCII strings"]
+
+
+M61 = 2 ** 61 - 1
+HASH_EQUAL = [-1, -2, 0, M61, 7, 7 + M61, -3, -3 - M61, 5, 5 + 2 * M61]
+TWIN = {-1: -2, -2: -1, 0: M61, M61: 0, 7: 7 + M61, 7 + M61: 7, -3: -3 - M61, -3 - M61: -3, 5: 5 + 2 * M61, 5 + 2 * M61: 5}
 
 
 def budget(tier):
@@ -20,8 +26,11 @@ def budget(tier):
 
 def gen(rng, index, tier):
     n = rng.randint(1, 6)
-    kind = rng.choice(["int", "collision", "collision", "str", "str_space"])
-    if kind == "int":
+    kind = rng.choice(["int", "collision", "collision", "str", "str_space", "hash_equal"])
+    if kind == "hash_equal":
+        # DIFFERENT ints with the SAME Python hash: -1 / -2, and k / k + (2^61 - 1)
+        els = rng.sample(HASH_EQUAL, n)
+    elif kind == "int":
         els = rng.sample(range(0, 20), n)
     elif kind == "collision":
         els = [8 * i for i in range(n)]
@@ -34,7 +43,7 @@ def gen(rng, index, tier):
     a = [lib.gen_ranking(rng, els, rng.choice([0.0, 0.4, 0.8]), rng.choice(["complete", "incomplete"])) for _ in range(m)]
     if rng.random() < 0.3:
         a.append([list(b) for b in rng.choice(a)])
-    var = rng.choice(["same", "perm_rankings", "perm_members", "perm_members", "name", "multiplicity", "move", "swap_buckets",
+    var = rng.choice(["same", "perm_rankings", "twin", "perm_members", "perm_members", "name", "multiplicity", "move", "swap_buckets",
                       "drop", "merge", "independent"])
     b = [[list(x) for x in r] for r in a]
     if var == "perm_rankings":
@@ -43,6 +52,14 @@ def gen(rng, index, tier):
         b = [[rng.sample(x, len(x)) for x in r] for r in b]
         if rng.random() < 0.5:
             rng.shuffle(b)
+    elif var == "twin":
+        # one element replaced everywhere by a different element with the same hash (hash_equal names), else by a new name
+        flat = sorted({e for r in b for x in r for e in x}, key=str)
+        if flat:
+            e = rng.choice(flat)
+            t = TWIN.get(e, "zz") if kind == "hash_equal" else ("zz" if isinstance(e, str) else 999)
+            if t not in flat:
+                b = [[[t if y == e else y for y in x] for x in r] for r in b]
     elif var == "multiplicity":
         b.append([list(x) for x in rng.choice(b)])
     elif var == "move":
